@@ -23,7 +23,7 @@ from rten_convert.attr_reader import AttributeReader
 from rten_convert.errors import ConversionError, UnsupportedOperatorError
 from rten_convert.graph import Node, ConstantNode, OperatorNode, ValueNode, Graph
 from rten_convert.tensor_data import TensorDataBuilder
-from rten_convert.util import round_up, warn_once, write_padding
+from rten_convert.util import int64_to_int32, round_up, warn_once, write_padding
 
 AttributeValue = int | float | str | list[int]
 
@@ -147,10 +147,10 @@ def constant_node_from_onnx_constant_op(onnx_op: onnx.OperatorProto) -> Constant
     else:
         if (int_ := attrs.get_attr("value_int", "int", None)) is not None:
             shape = []
-            data = np.array(int_).astype(np.int32)
+            data = int64_to_int32(int_)
         elif (ints := attrs.get_attr("value_ints", "ints", None)) is not None:
             shape = [len(ints)]
-            data = np.array(ints).astype(np.int32)
+            data = int64_to_int32(ints)
         elif (float_ := attrs.get_attr("value_float", "float", None)) is not None:
             shape = []
             data = np.array(float_).astype(np.float32)
